@@ -112,7 +112,7 @@ def classify_panic(fn, x, line):
     return None
 
 
-def timed(binary, line, limit=60):
+def timed(binary, line, limit=60, full=False):
     t = time.time()
     try:
         p = subprocess.run([binary, "pure"], input=(line + "\n").encode(), stdout=subprocess.PIPE, stderr=subprocess.PIPE, timeout=limit)
@@ -120,7 +120,7 @@ def timed(binary, line, limit=60):
         rc = p.returncode
     except subprocess.TimeoutExpired:
         out, rc = "TIMEOUT", -9
-    return time.time() - t, rc, out[:80]
+    return time.time() - t, rc, (out if full else out[:80])
 
 
 def scale_cases(n):
@@ -248,6 +248,16 @@ def run(ctx):
                 ctx.count(); ctx.cls("dkim-long-header/" + bname)
                 if rc != 0 or o.startswith("PANIC") or o == "TIMEOUT":
                     obad.append((bname, "DKIM-signing a message with a %d-octet Subject (%s header canonicalization): %s" % (nlen, "relaxed" if hc == "r" else "simple", "process died rc %s (stack overflow)" % rc if rc not in (0, -9) else o), line[:300]))
+    # a sendmail program that writes more than a pipe holds on its output streams (sendmail -v, a wrapper that logs): the call returns
+    for md in ("chatty", "chattyfail"):
+        line = "transport.sendmail\t%s\t%s\t%s\t%s" % (md, hx(b"a@x.org"), hx(b"b@y.org"), hx(b"Subject: x\r\n\r\n" + b"line\r\n" * 2000))
+        for bname, binary in builds:
+            t, rc, o = timed(binary, line, limit=25, full=True)
+            ctx.count(); ctx.cls("sendmail-" + md + "/" + bname)
+            f = o.split("\t")
+            want = "ok" if md == "chatty" else "err,client"
+            if rc != 0 or o == "TIMEOUT" or o.startswith("PANIC") or len(f) < 7 or not (f[1].startswith(want) and f[4].startswith(want)):
+                obad.append((bname, "SendmailTransport with a program that writes 300 kB to its output streams (%s): %s" % (md, "no answer within 25 s" if o == "TIMEOUT" else o[:160]), line[:300]))
     # ---- C: hostile server replies at every step of a session, over TCP, sync and tokio clients
     from smtp import step, run_scenarios
     weird = ["250é\r\n", "25é ok\r\n", "2€ ok\r\n", "250\u00a0ok\r\n", "250—SIZE\r\n250 ok\r\n", "250-a\r\n250—b\r\n", "\u2028250 ok\r\n", "250\r\n", "250 \r\n", "2\r\n", "\r\n",
@@ -272,6 +282,22 @@ def run(ctx):
         ctx.count(); ctx.cls("reply/" + sc["flavor"])
         if r.get("results") in ("PANIC", "HANG") or "error" in r:
             obad.append((sc["flavor"], "the client %s on the server reply %r at %s" % (r.get("results", r.get("error")), unhx(sc["w"])[:60], sc["pos"]), json.dumps({k: sc[k] for k in ("flavor", "servers", "ops", "timeout_ms")})[:5000]))
+    # a server that answers everything in the AUTH dialogue with another challenge: the dialogue ends after at most ten answers, whatever the mechanism
+    from smtp import events_R
+    escs = []
+    for mech in ("PLAIN", "LOGIN", "XOAUTH2"):
+        for chal in (b"334 \r\n", b"334 VXNlcm5hbWU6\r\n", b"334 eyJzdGF0dXMiOiI0MDEifQ==\r\n"):
+            for fl in ("sync", "tokio"):
+                steps = [step("none", b"220 srv\r\n"), step("line", b"250-srv\r\n250 AUTH PLAIN LOGIN XOAUTH2\r\n")] + [step("line", chal) for _ in range(40)]
+                escs.append({"id": len(escs), "flavor": fl, "timeout_ms": 400, "servers": [steps], "server_cap_ms": 3000, "hang_ms": 15000, "mech": mech,
+                             "ops": [{"op": "connect", "hello": hx(b"c19.test")}, {"op": "auth", "user": hx(b"u"), "pass": hx(b"p"), "mechs": [mech]}]})
+    for sc, r in zip(escs, run_scenarios(escs)):
+        ctx.count(); ctx.cls("endless-challenges/" + sc["flavor"])
+        res = r.get("results")
+        srv = (r.get("servers") or [None])[0]
+        answers = len(events_R(srv)) - 2 if srv else 0          # lines after EHLO and the AUTH command
+        if res in ("PANIC", "HANG") or "error" in r or answers > 11 or not (isinstance(res, list) and len(res) > 1 and str(res[1]).startswith("err,")):
+            obad.append((sc["flavor"], "a server that keeps sending challenges (%s): %s, %d answers given" % (sc["mech"], str(res if not isinstance(res, list) else res[1:])[:120], answers), json.dumps({k: sc[k] for k in ("flavor", "ops", "timeout_ms")})[:2000]))
     # every legal value of the timeout - the largest durations included - against a healthy server: a delivery, never a panic
     tscs = []
     for tv in ("max", "u64s", "i64s", "century"):
